@@ -439,3 +439,9 @@ for w in (1, 2, 4, 8):
       forall=f"every 34-byte string, every digit index i < 272/{w}", bounds="exact for the library's buffers")
 H("C16", "quick", "c13", "c05_wipe_l2", flagset="std64", timeout=3600, model="Havoc16", unwind=34, encodes=["ReferenceImplPrivateKey::increment / wipe / to_binary_representation"],
   forall="2 levels, all heights (total height up to 50), every counter and seed: the blob handed on after the last leaf carries no seed byte", bounds="exact; n = 16")
+
+for name in ("c10_bogus_level_word_all_ones", "c10_bogus_level_word_bit26", "c10_bogus_level_word_bit30"):
+    for prop in ("C10", "C11"):
+        H(prop, "quick", "c10", name, timeout=1800, model="Havoc16", unwind=40, encodes=["hss::aux::hss_expand_aux_data"],
+          forall="level word concrete per instance (0xffffffff, 0x84000000, 0xc0000002: bits no real key produces), every other byte of a 40-byte buffer, with / without seed",
+          bounds="cap 40 bytes")
